@@ -16,7 +16,7 @@ TEXT = {
  'C03': ("Every parsing function of pocket-types reachable from the entry points (UTF-8 decode/encode, JSON string unescape, lexer, hex readers, tags/content readers, parse_json_event, parse_json_filter) is verified by Verus with NO precondition on input bytes or buffer length at the entry points: all index/slice bounds, arithmetic overflow, shifts, panic!/unwrap unreachability and termination obligations are discharged for all inputs and all loop iterations, plus consumed <= input length. A successful Event::from_json / Tags::from_json / Filter::from_json result is proved structurally well-formed (wf_event / wf_tags / wf_filter: every stored length and offset in bounds, sections chained exactly), and every accessor, iterator and the match predicate are proved total under exactly that well-formedness; hex decoders (ids, pubkeys, signatures, HLL registers) and address parsing are total and functionally specified.",
          "Stack depth of the recursive burn_* family is not modelled. Serializers are proved total under an additional renderability condition on the strings (escapable), which is not yet derived for JSON-parsed values."),
  'C04': ("EventStore::store_event/get_event_by_offset/new are verified against a trusted contract of mmap-append/File/AtomicUsize: an event is appended at a fresh aligned offset at or beyond the old end marker, bytes below the old end are never touched, the grow-and-retry loop terminates, the cached file length equals the mapping length, and an offset at which an event was stored reads back exactly its bytes; Store::store_event's contract lifts this to the store (events map only grows by the new event).", "mmap-append, the kernel and the file system are trusted by contract; reopen = persistence assumption."),
- 'C06': ("Filter::event_matches is proved equal to nip01_matches (a transcription of the property statement) for every well-formed filter and event; it never errors or panics. Callee contracts (Tags::matches, get_string, the id/author/kind iterators, Event accessors) are proved against the packed-layout views.", "Event::id/pubkey/sig by-value accessors are used by contract (slice->array conversion is std)."),
+ 'C06': ("Filter::event_matches is proved equal to nip01_matches (a transcription of the property statement) for every structurally well-formed filter (whether built from JSON or from parts, with or without named constraints) and event; it never errors or panics. Callee contracts (Tags::matches, get_string, the id/author/kind iterators, Event accessors) are proved against the packed-layout views.", "Event::id/pubkey/sig by-value accessors are used by contract (slice->array conversion is std)."),
  'C09': ("Store::store_event contract over the trusted LMDB contract: for replaceable kinds an akc entry of the (author, kind) range outside the '<= created_at' sub-range forces an error, and after a successful store the new event's key is the ONLY entry of that range; remove_replaceable / remove_parameterized_replaceable remove exactly the keys of the events their committed range scan finds (whole-table postconditions); find_*_inner return the first (matching-kind) entry or None iff none; the range constructors pin exact key bounds; key builders equal the documented layouts; Kind classification equals the NIP-01 ranges.", "LMDB/heed by assumed contract (finite maps, snapshot reads, ordered ranges, atomic commit). The byte-order meaning of the key ranges (entries = events with since <= t <= until) and the parameterized-kind uniqueness clause are not yet discharged: see not_decided."),
  'C10': ("Store::handle_deletion_event is proved to change, between the transaction view it is given and the one it leaves, only: address markers whose key is an address of the requester's own pubkey, id markers of ids that are absent from the committed store or belong to the requester's own event, and index entries that are keys of stored events authored by the requester (deletion_delta_ok), for any number and order of tags; store_event commits only on success.", "LMDB by contract; events in the map with equal ids are not assumed to be equal (no hash assumption)."),
  'C11': ("mark_naddr_deleted stores max(previous, when) for exactly the address key and changes nothing else; when_is_naddr_deleted reads that key; key_naddr_index equals the documented 217-byte layout; store_event refuses events whose id is marked deleted and replaceable events covered by an address marker (created_at <= marker).", "LMDB by contract. The parameterized-replaceable marker clause of store_event is listed under not_decided."),
@@ -25,7 +25,7 @@ TEXT = {
          "Store::rebuild's own loops, file moves and reopen are not under contract (see coverage.not_decided)."),
  'C17': ("Lmdb::index adds exactly the event's keys (id, ci, akc, ac and one tc/atc/ktc key per indexable tag) mapping to the offset and changes nothing else, over the whole of all tables; deindex + deindex_id remove exactly those keys; key builders equal the documented layouts.", "The 'every filter shape returns it' half lives in find_events (not applicable to this technique)."),
  'C18': ("Store::remove_event: absent id => committed state unchanged; present id => exactly the keys of that event disappear from every table, no marker is written; error => nothing committed. store_event of an ephemeral kind succeeds and leaves the committed state unchanged.", "vanish is not under contract (calls find_events)."),
- 'C19': ("Event::from_parts yields exactly the canonical packing of its parts (view equality on all seven fields, well-formedness) or an error when the length does not fit 32 bits or the buffer is too small; the JSON tag/filter readers refuse counts/lengths over 65535 (proved as absence of truncating casts: every `as u16` is dominated by a range check, discharged as part of the overflow obligations).", "Tags::from_parts / Filter::from_parts view equality not yet under contract."),
+ 'C19': ("Tags::from_parts / OwnedTags::new (generic part lists): Err exactly when the computed size exceeds 65535 or the buffer is smaller than it, otherwise a well-formed value of exactly that size whose tags_view equals the parts (same strings, same order), laid out contiguously in the order given. Filter::from_parts / OwnedFilter::new: Err exactly when more than 65535 ids, authors or kinds are given or the buffer is too small, otherwise a well-formed filter whose id/author/kind/tags/limit/since/until views equal the parts. Event::from_parts / OwnedEvent::new: exactly the canonical packing of the parts (view equality on all seven fields, well-formedness) or an error when the length does not fit 32 bits or the buffer is too small. The JSON tag/event/filter parsers refuse counts and sections over 65535 (every `as u16` is dominated by a range check) and return well-formed values.", "sign_new's id and signature are C08; the JSON parsers' \"accessors reproduce the parsed parts\" is stage 3 of C01/C07. Trusted: AsRef::as_ref is a function of its receiver; the part lists fit in the address space."),
  'C20': ("Kani, complete (full-domain symbolic 256-register sketches, constant loop bounds, unwinding assertions): merge is register-wise max, commutative, associative, idempotent; add_element = max at (index, rho) with rho checked against an independent bit-level reference, idempotent, order-independent, Err iff offset >= 24; adding an element commutes with merging (one-step union law).", "Hex round trip and estimate_count are in not_decided until their units land; the 40% envelope is a statistical statement no contract expresses."),
 }
 NA = {
